@@ -280,7 +280,7 @@ def typed_value_key(c):
     try:
         t = str(like.get_type())
     except Exception:  # noqa: BLE001
-        return ("?", id(c))
+        t = "?"  # the type of `like` cannot be computed (such a constant cannot be printed either)
     if isinstance(value, str):
         value = {"posinf": math.inf, "neginf": -math.inf, "nan": math.nan}.get(value, value)
         if isinstance(value, str):
@@ -288,7 +288,7 @@ def typed_value_key(c):
     try:
         dt = interp.NP_DTYPE.get(t)
         with numpy.errstate(all="ignore"):
-            v = dt(value) if dt is not None else value
+            v = dt(value) if dt is not None else (float(value) if isinstance(value, (int, float, numpy.floating, numpy.integer)) else value)
         return (t,) + tuple(interp.canon(v))
     except Exception:  # noqa: BLE001
         return (t, "repr", repr(value))
@@ -332,7 +332,10 @@ def alias_report(graph):
                 cls = "registered-name-shared" if all(isinstance(x.props.get("reference_name"), str) for x in es) else "auto-name-equals-registered-name"
             else:
                 cls = "auto-name-join-ambiguity"
-            out.append(dict(ref=r, kinds=kinds, cls=cls))
+            rec = dict(ref=r, kinds=kinds, cls=cls)
+            if all(k == "constant" for k in kinds):
+                rec["typed_values"] = sorted(repr(typed_value_key(x)) for x in es)
+            out.append(rec)
     return out
 
 
@@ -385,12 +388,19 @@ def run_case(case, cfg):
         target = getattr(targets, tname)
         ctx = fa.Context(paths=[algorithms])
         pre = None
+        d = Describer(tname)
+        pmap = []
         if case.get("prelude") is not None:
-            # another function traced and printed FIRST in the same context (reference names persist)
+            # another function traced and printed FIRST in the same context (reference names persist);
+            # it is described before the main function is traced (tracing may set props on shared nodes)
             pr = prepare_graph(case, case["prelude"], ctx, tname, target, dict())
             if pr is not None:
                 text, err, raw = real_print(pr[0], target, 0)
                 pre = (pr[0], dict(debug=0, text=text, error=err, raw=raw))
+                d.node(pre[0])
+                pmap.append([len(d.lines), "pre"])
+                d.lines.append(d.print_line(pre[0], 0))
+                res["pre_print"] = pre[1]
         got = prepare_graph(case, recipe, ctx, tname, target, res)
         if got is None:
             return res
@@ -406,13 +416,6 @@ def run_case(case, cfg):
                 res["warned"] = _last_raw["warned"][0][:200]
         res["prints"] = prints
         # description for the model (after printing, so that describing cannot disturb the printer)
-        d = Describer(tname)
-        pmap = []
-        if pre is not None:
-            d.node(pre[0])
-            pmap.append([len(d.lines), "pre"])
-            d.lines.append(d.print_line(pre[0], 0))
-            res["pre_print"] = pre[1]
         d.node(g)
         for k, p in enumerate(prints):
             pmap.append([len(d.lines), k])
